@@ -17,8 +17,8 @@ var keywords = map[string]bool{"not": true, "any": true, "all": true, "in": true
 var plainIdent = regexp.MustCompile(`^[a-zA-Z][a-zA-Z0-9_]*$`)
 var ptrSeg = regexp.MustCompile(`^[\pL\pN\-_.~:|]+$`)
 
-var selFirst = []string{"a", "b", "foo", "X", "key", "m", "l", "Name", "x1", "slash/part", "c_d"}
-var selRest = []string{"b", "c", "0", "1", "12", "k", "x y", "é", "A", "", "a.b", "a/b", "t~x", "q\"r", "-", "_u"}
+var selFirst = []string{"a", "b", "foo", "X", "key", "m", "l", "Name", "x1", "slash/part", "c_d", "notes", "nothing", "anyone", "allow", "inside", "island", "orbit", "android", "matchesx", "containsx", "emptyx", "asx"}
+var selRest = []string{"b", "c", "0", "1", "12", "k", "x y", "é", "A", "", "a.b", "a/b", "t~x", "q\"r", "-", "_u", ".", "..", "a/", "/b", "~1", "a~01", "not", "in", ".", ".."}
 var litPool = []string{"", "a", "foo", "1", "-2.5", "0", "x y", "é", "a\"b", "b\\c", "/usr/bin", "/", "/a/", "\n", "\t\x00", "`", "a`b\r", "true", "0x1F", "日本", "\xff\xfe", "not", "in", "10", "-0", "1.50", "a.b", "\U0001F600", "'", "//a", "/a b"}
 
 func genSelector(allowPtr bool) grammar.Selector {
